@@ -211,6 +211,16 @@ def explore(ctx):
             ctx.count('transform:' + tr.split(':')[0])
             if len(ctx.samples) < 4 and changed:
                 ctx.sample(dict(transform=tr, before=c.text[:150], after=text2[:150], outcome=base[0]))
+            if out2 != base and tr == 'keys' and out2[0] == 'ok' and base[0] == 'ok':
+                # "an equal value": mappings that are not loaded as classes (plain data below Any /
+                # _yatiml_extra) compare equal whatever the order of their keys
+                try:
+                    del c.model.log[:]
+                    if c.real.load(text2) == c.real_out[1]:
+                        ctx.count('keys_equal_up_to_plain_dict_order')
+                        continue
+                except Exception:  # noqa
+                    pass
             if out2 != base:
                 ctx.violation('outcome changes under "{}": {} -> {}'.format(tr, str(base)[:150], str(out2)[:150]),
                               dict(L.describe(c), key='{}:{}'.format(tr, c.text[:50]), transformed_text=text2[:600],
